@@ -1,6 +1,5 @@
 SPECIFICATION Spec
 CONSTANTS
   MaxL = @@MAXL@@
-  Both = @@BOTH@@
 INVARIANT Inv
 CHECK_DEADLOCK FALSE
